@@ -9,7 +9,9 @@ package verifier
 
 import (
 	"crypto"
+	"encoding/base64"
 	"errors"
+	"strings"
 	"testing"
 	"time"
 
@@ -17,6 +19,7 @@ import (
 	"github.com/nuts-foundation/go-did/did"
 	"github.com/nuts-foundation/go-did/vc"
 	"github.com/nuts-foundation/nuts-node/crypto/jwx"
+	"github.com/nuts-foundation/nuts-node/vdr/didjwk"
 	"github.com/nuts-foundation/nuts-node/vdr/resolver"
 	"pgregory.net/rapid"
 	"verif.local/h"
@@ -34,7 +37,10 @@ type c17DIDResolver struct {
 	docs map[string]*did.Document
 }
 
-func (r *c17DIDResolver) Resolve(id did.DID, _ *resolver.ResolveMetadata) (*did.Document, *resolver.DocumentMetadata, error) {
+func (r *c17DIDResolver) Resolve(id did.DID, md *resolver.ResolveMetadata) (*did.Document, *resolver.DocumentMetadata, error) {
+	if id.Method == "jwk" {
+		return didjwk.NewResolver().Resolve(id, md)
+	}
 	if d, ok := r.docs[id.String()]; ok {
 		return d, &resolver.DocumentMetadata{}, nil
 	}
@@ -43,10 +49,17 @@ func (r *c17DIDResolver) Resolve(id did.DID, _ *resolver.ResolveMetadata) (*did.
 
 // add registers key under kid in the document of the DID that kid parses to. It refuses to put a key into a document
 // that already exists (the attacker never gets a key into the victim's document). Returns whether kid is resolvable.
-func (r *c17DIDResolver) add(kid string, key crypto.PublicKey) bool {
+func (r *c17DIDResolver) add(kid string, key crypto.PublicKey) bool { return r.addMeta(kid, key, nil) }
+
+// addMeta is add with extra members (alg / use / key_ops / kid) in the verification method's publicKeyJwk: the DID document
+// is written by the party that owns it, so whatever its JWK announces is attacker-controlled data too.
+func (r *c17DIDResolver) addMeta(kid string, key crypto.PublicKey, meta map[string]string) bool {
 	id, err := did.ParseDIDURL(kid)
 	if err != nil || id.DID.Empty() {
 		return false
+	}
+	if id.Method == "jwk" {
+		return true // self-describing: resolved by the real did:jwk resolver
 	}
 	if _, exists := r.docs[id.DID.String()]; exists {
 		return false
@@ -54,6 +67,13 @@ func (r *c17DIDResolver) add(kid string, key crypto.PublicKey) bool {
 	vm, err := did.NewVerificationMethod(*id, ssi.JsonWebKey2020, id.DID, key)
 	if err != nil {
 		return false
+	}
+	for k, v := range meta {
+		if k == "key_ops" {
+			vm.PublicKeyJwk[k] = []interface{}{v}
+		} else {
+			vm.PublicKeyJwk[k] = v
+		}
 	}
 	doc := &did.Document{ID: id.DID}
 	doc.AddAssertionMethod(vm)
@@ -80,9 +100,14 @@ func (r *c17KeyResolver) ResolveKey(id did.DID, _ *time.Time, _ resolver.Relatio
 // c17NewResolver builds the fixture: the victim's document, and the attacker's own document under the (possibly
 // near-miss) identity its key id parses to.
 func c17NewResolver(w jose.World, keys map[string]jose.Key) (kr *c17KeyResolver, attackerResolvable bool) {
+	return c17NewResolverMeta(w, keys, nil)
+}
+
+// c17NewResolverMeta: meta goes into the publicKeyJwk of both parties' verification methods.
+func c17NewResolverMeta(w jose.World, keys map[string]jose.Key, meta map[string]string) (kr *c17KeyResolver, attackerResolvable bool) {
 	dr := &c17DIDResolver{docs: map[string]*did.Document{}}
-	dr.add(w.Kids[jose.Victim], keys[jose.Victim].Public())
-	dr.add(w.Kids[jose.Attacker], keys[jose.Attacker].Public())
+	dr.addMeta(w.Kids[jose.Victim], keys[jose.Victim].Public(), meta)
+	dr.addMeta(w.Kids[jose.Attacker], keys[jose.Attacker].Public(), meta)
 	real := resolver.DIDKeyResolver{Resolver: dr}
 	k, err := real.ResolveKeyByID(w.Kids[jose.Attacker], nil, resolver.NutsSigningKeyType)
 	return &c17KeyResolver{inner: real}, err == nil && k != nil
@@ -94,13 +119,16 @@ const (
 )
 
 func c17VCWorld(entry string, near string) jose.World {
+	return c17VCWorldFor(entry, c17VictimDID, jose.NearKid(c17VictimDID, c17AttackerDID, "0", near), near)
+}
+
+func c17VCWorldFor(entry string, c17VictimDID string, attackerKid string, near string) jose.World {
 	w := jose.World{
 		KeyRef:  "kid",
 		Allowed: jwx.SupportedAlgorithmsAsStrings(),
-		Kids: map[string]string{jose.Victim: c17VictimDID + "#0", jose.Attacker: jose.NearKid(c17VictimDID, c17AttackerDID, "0", near),
-			"unknown": "did:web:example.com:iam:nobody#0"},
-		Header: jose.Header{jose.Str("typ", "JWT")},
-		Near:   near,
+		Kids:    map[string]string{jose.Victim: c17VictimDID + "#0", jose.Attacker: attackerKid, "unknown": "did:web:example.com:iam:nobody#0"},
+		Header:  jose.Header{jose.Str("typ", "JWT")},
+		Near:    near,
 	}
 	if entry == "vp" {
 		// the signer of a presentation is whoever the kid names: not bound to the victim at this layer
@@ -115,18 +143,49 @@ func c17VCWorld(entry string, near string) jose.World {
 }
 
 func c17VCGen(t *rapid.T) c17VCCase {
-	return c17VCCase{Entry: rapid.SampledFrom([]string{"vc", "vc", "vp"}).Draw(t, "entry"), V: jose.Gen(t, jose.GenOpts{Near: true})}
+	return c17VCCase{Entry: rapid.SampledFrom([]string{"vc", "vc", "vp", "vc-didjwk", "vp-didjwk"}).Draw(t, "entry"), V: jose.Gen(t, jose.GenOpts{Near: true, JWKMeta: true})}
 }
 
 func c17VCRun(x *h.Ctx, c c17VCCase) {
-	entry := c.Entry
+	entry, didJWK := c.Entry, false
+	if strings.HasSuffix(entry, "-didjwk") {
+		entry, didJWK = strings.TrimSuffix(entry, "-didjwk"), true
+	}
 	if entry != "vp" {
 		entry = "vc"
 	}
-	w := c17VCWorld(entry, c.V.Near)
 	keys := jose.Keys(c.V)
+	victimDID := c17VictimDID
+	w := c17VCWorld(entry, c.V.Near)
+	if didJWK {
+		// both parties are did:jwk DIDs: the DID *is* the JWK, metadata members included, and is resolved by the real
+		// did:jwk resolver. The metadata does not depend on the key ids, so a first build tells what it is.
+		c.V.Near = ""
+		pre := jose.Build(c17VCWorld(entry, ""), c.V)
+		var members []jose.Member
+		if len(pre.F.Sigs) == 1 {
+			for _, name := range []string{"alg", "use"} {
+				if val, ok := pre.F.Sigs[0].JWKExtra[name]; ok {
+					members = append(members, jose.Str(name, val))
+				}
+			}
+			if val, ok := pre.F.Sigs[0].JWKExtra["key_ops"]; ok {
+				members = append(members, jose.RawM("key_ops", `["`+val+`"]`))
+			}
+		}
+		victimDID = "did:jwk:" + base64.RawStdEncoding.EncodeToString(keys[jose.Victim].JWK(false, members...).JSON())
+		attackerDID := "did:jwk:" + base64.RawStdEncoding.EncodeToString(keys[jose.Attacker].JWK(false, members...).JSON())
+		w = c17VCWorldFor(entry, victimDID, attackerDID+"#0", "")
+	}
 	b := jose.Build(w, c.V)
-	res, attackerResolvable := c17NewResolver(w, keys)
+	var meta map[string]string
+	if len(b.F.Sigs) == 1 {
+		meta = b.F.Sigs[0].JWKExtra // what the JsonWebKey2020 verification method announces about the key
+	}
+	res, attackerResolvable := c17NewResolverMeta(w, keys, meta)
+	if didJWK {
+		x.Class("did:jwk")
+	}
 	if c.V.Near != "" {
 		x.Classf("near-fixture:%s:attacker-key-resolvable=%v", c.V.Near, attackerResolvable)
 	}
@@ -156,7 +215,7 @@ func c17VCRun(x *h.Ctx, c c17VCCase) {
 	}
 	obs := jose.Observation{Accepted: err == nil, KidsAsked: res.asked}
 	// VC data model v1 compatibility: without kid the issuer is used as key id
-	obs.AlsoOK = []string{c17VictimDID}
+	obs.AlsoOK = []string{victimDID, victimDID + "#0"}
 	if err != nil {
 		obs.Err = err.Error()
 		x.Class("rejected-at:" + stage)
